@@ -59,7 +59,8 @@ class IntervalLinear(object):
 
     def __call__(self, size):
         '''Call the interval to produce a new delay time taking into account the bandwith'''
-        self._value = self.initial + (self._k*size)/self.bandwith
+        # a factor below 1 must not make the next wait shorter than the last one
+        self._value = max(self._value, self.initial + (self._k*size)/self.bandwith)
         self._k    *= self.factor
         # one jitter per message: a fresh draw each time could make a delay shorter than the previous one
         if self._jitter is None:
